@@ -104,3 +104,8 @@ pub(crate) fn write_float_string<F: Float + FloatCore, W: Write>(
     }
     Ok(())
 }
+
+// verification hook: bounded-model-checking harnesses (compiled only by Kani, `--cfg kani`)
+#[cfg(kani)]
+#[path = "/verif/harness/h_zmij_format.rs"]
+mod verif;
